@@ -213,6 +213,21 @@ theorem inv_step (c : Cfg) (htl : TlOk c.tl) (s : State) (op : Op)
         · split
           · rename_i hv; exact inv_of_base htl hv
           · exact h
+  | emptyAll reset =>
+    cases kind <;> simp only [step] <;> first | exact trivial | skip
+    · -- pixel
+      split
+      · exact ⟨rfl, Or.inl ⟨rfl, rfl⟩⟩
+      · exact h
+    · -- phase: `*= 0` keeps shape and dtype
+      cases s with
+      | none => exact h
+      | some a =>
+        simp only
+        split
+        · exact h
+        · repeat' split
+          all_goals exact h
   | empty =>
     cases kind <;> simp only [step] <;> first | exact trivial | skip
     exact ⟨rfl, Or.inl ⟨rfl, rfl⟩⟩
@@ -322,7 +337,7 @@ theorem failed_assignment_leaves_state (c : Cfg) (s : State) (op : Op) (hop : is
         · split
           · rename_i hv; simp_all
           · rfl
-  | iadd _ | empty | read | read3 | readDtype | readShape => simp [isAssign] at hop
+  | iadd _ | empty | emptyAll _ | read | read3 | readDtype | readShape => simp [isAssign] at hop
 
 /-- a failed in-place addition also leaves the state untouched, in every state the invariant
 allows, for numpy / Python right-hand sides (for an xarray right-hand side on a numpy-backed
@@ -522,6 +537,42 @@ theorem reads_pure (c : Cfg) (s : State) (op : Op)
   obtain ⟨tl, kind, rows, cols⟩ := c
   rcases hop with rfl | rfl | rfl | rfl <;> cases kind <;> cases s <;> simp only [step] <;>
     first | rfl | (split <;> rfl)
+
+/-- **`detector.empty(reset)`**, bucket by bucket, from any state: photon, signal and image are
+emptied whatever `reset` is (so a non-destructive readout cannot leave the previous frame behind);
+pixel becomes the all-zero array on a destructive reset and is kept otherwise. -/
+theorem emptyAll_effect (c : Cfg) (s : State) (reset : Bool) :
+    (c.kind = .photon ∨ c.kind = .signal ∨ c.kind = .image →
+      step c s (.emptyAll reset) = (none, .ok .unit)) ∧
+    (c.kind = .pixel → step c s (.emptyAll reset) =
+      (if reset then some ⟨false, [c.rows, c.cols], .float64, .zeros⟩ else s, .ok .unit)) := by
+  obtain ⟨tl, kind, rows, cols⟩ := c
+  refine ⟨?_, ?_⟩
+  · rintro (hk | hk | hk) <;> cases hk <;> rfl
+  · intro hk; cases hk
+    cases reset <;> rfl
+
+/-- … and **nothing stale can be read afterwards**: reading the photon, signal or image bucket
+right after `detector.empty(reset)` raises, for both values of `reset` and from any state. -/
+theorem read_after_emptyAll_errors (c : Cfg) (s : State) (reset : Bool)
+    (hk : c.kind = .photon ∨ c.kind = .signal ∨ c.kind = .image) :
+    step c (step c s (.emptyAll reset)).1 .read = (none, .error .valueError) := by
+  rw [(emptyAll_effect c s reset).1 hk]
+  rfl
+
+/-- the phase bucket of an MKID keeps its shape and dtype through `detector.empty(reset)`: it is
+left alone when empty or on a non-destructive readout, and multiplied by zero in place otherwise -/
+theorem emptyAll_phase (c : Cfg) (hk : c.kind = .phase) (a : Arr Content) (reset : Bool) :
+    ∃ a', (step c (some a) (.emptyAll reset)).1 = some a' ∧ a'.shape = a.shape ∧
+      a'.dtype = a.dtype ∧ a'.is3d = a.is3d ∧
+      a'.content = (if reset then .timesZero a.content else a.content) := by
+  obtain ⟨tl, kind, rows, cols⟩ := c
+  cases hk
+  cases reset
+  · exact ⟨a, rfl, rfl, rfl, rfl, rfl⟩
+  · simp only [step, Bool.not_true, Bool.false_eq_true, if_false, if_true]
+    repeat' split
+    all_goals exact ⟨_, rfl, rfl, rfl, rfl, rfl⟩
 
 /-- Pixel's reset is the all-zero float64 array of the detector's shape (never stale content) -/
 theorem pixel_reset_zero (c : Cfg) (hk : c.kind = .pixel) (s : State) :
